@@ -78,125 +78,144 @@ func lsFamily(c *inst, raw json.RawMessage, full bool, sum *core.Summary) {
 		{"m<n NoTrans (minimum norm)", blas.NoTrans, n, m, at, c.BMN, n, c.XMN, m, m > n},
 		{"m<n Trans (least squares)", blas.Trans, n, m, at, c.B, m, c.X, n, m > n},
 	}
+	// the scalings of A and B (powers of two, exact) come from the specification: scal for every
+	// run, scalx in addition with variants=full; snrhs = the numbers of right-hand sides that the
+	// scaled problems are also solved with
 	scalings := [][2]int{{0, 0}}
-	if c.Ok && n > 0 {
-		scalings = append(scalings, [2]int{1000, 0}, [2]int{-1000, 0}, [2]int{0, 1000}, [2]int{0, -1000})
-		if full {
-			scalings = append(scalings, [2]int{500, -400}, [2]int{990, 10}, [2]int{-990, -10})
+	for _, sc := range c.Scal {
+		if sc[0] != 0 || sc[1] != 0 {
+			scalings = append(scalings, [2]int{sc[0], sc[1]})
 		}
 	}
-	for _, q := range cases {
-		if !q.distinct {
-			continue
+	if full {
+		for _, sc := range c.ScalX {
+			scalings = append(scalings, [2]int{sc[0], sc[1]})
 		}
-		mm, nn := q.rows, q.cols
-		mn := mini(mm, nn)
-		bg := maxi(mm, nn)
-		docmin := maxi(1, bg+maxi(bg, nr))
-		effmin := maxi(1, mn+maxi(mn, nr))
-		for _, lda := range ldas(nn, full) {
-			for _, sc := range scalings {
-				ea, eb := sc[0], sc[1]
-				for _, routine := range []string{"Dgels", "lapack64.Gels"} {
-					if routine == "lapack64.Gels" && (lda != maxi(1, nn) || !full && (ea != 0 || eb != 0)) {
-						continue
+	}
+	nrs := []int{c.R}
+	for _, v := range c.SNrhs {
+		if v < c.R {
+			nrs = append(nrs, v)
+		}
+	}
+	for _, nr := range nrs {
+		k.empty = n == 0 || nr == 0
+		for _, q := range cases {
+			if !q.distinct {
+				continue
+			}
+			mm, nn := q.rows, q.cols
+			mn := mini(mm, nn)
+			bg := maxi(mm, nn)
+			docmin := maxi(1, bg+maxi(bg, nr))
+			effmin := maxi(1, mn+maxi(mn, nr))
+			for _, lda := range ldas(nn, full) {
+				for _, sc := range scalings {
+					ea, eb := sc[0], sc[1]
+					if nr != c.R && (ea == 0 && eb == 0 || lda != maxi(1, nn)) {
+						continue // fewer right-hand sides: only the scaled problems
 					}
-					ldb := maxi(1, nr) + lda - maxi(1, nn)
-					mkB := func() []float64 {
-						ln := 1
-						if bg > 0 && nr > 0 {
-							ln = (bg-1)*ldb + nr + 1
+					for _, routine := range []string{"Dgels", "lapack64.Gels"} {
+						if routine == "lapack64.Gels" && (lda != maxi(1, nn) || !full && (ea != 0 || eb != 0) || nr != c.R) {
+							continue
 						}
-						b := newWork(ln)
-						for i := range b {
-							b[i] = padNaN
-						}
-						for i := 0; i < bg; i++ {
-							for j := 0; j < nr; j++ {
-								b[i*ldb+j] = workFill // rows beyond the right-hand side: finite filler
-								if i < q.brows {
-									b[i*ldb+j] = math.Ldexp(float64(q.b[i][j]), eb)
+						ldb := maxi(1, nr) + lda - maxi(1, nn)
+						mkB := func() []float64 {
+							ln := 1
+							if bg > 0 && nr > 0 {
+								ln = (bg-1)*ldb + nr + 1
+							}
+							b := newWork(ln)
+							for i := range b {
+								b[i] = padNaN
+							}
+							for i := 0; i < bg; i++ {
+								for j := 0; j < nr; j++ {
+									b[i*ldb+j] = workFill // rows beyond the right-hand side: finite filler
+									if i < q.brows {
+										b[i*ldb+j] = math.Ldexp(float64(q.b[i][j]), eb)
+									}
 								}
 							}
+							b[len(b)-1] = tailNaN
+							return b
 						}
-						b[len(b)-1] = tailNaN
-						return b
-					}
-					a := buildScaled(q.a, mm, nn, lda, 1, ea)
-					b := mkB()
-					k.where = desc(routine, q.name, "query", "m", mm, "n", nn, "nrhs", nr)
-					opt, qok := k.query(routine, effmin, func(w []float64) { impl.Dgels(q.tr, mm, nn, nr, a, lda, b, ldb, w, -1) }, a, b)
-					if !qok {
-						continue
-					}
-					lworks := lworkVariants(docmin, maxi(opt, docmin), full)
-					if opt >= effmin && opt < docmin {
-						lworks = append(lworks, opt)
-					}
-					if (ea != 0 || eb != 0) && !full {
-						lworks = lworks[:1]
-					}
-					for _, lwork := range lworks {
-						k.where = desc(routine, q.name, "m", mm, "n", nn, "nrhs", nr, "lda", lda, "ldb", ldb, "lwork", lwork, "A*2^", ea, "B*2^", eb, "variant", c.V)
 						a := buildScaled(q.a, mm, nn, lda, 1, ea)
 						b := mkB()
-						work := newWork(lwork)
-						var ok bool
-						ran := k.run(routine, func() {
-							if routine == "Dgels" {
-								ok = impl.Dgels(q.tr, mm, nn, nr, a, lda, b, ldb, work, lwork)
-							} else {
-								ok = lapack64.Gels(q.tr, blas64.General{Rows: mm, Cols: nn, Stride: lda, Data: a},
-									blas64.General{Rows: bg, Cols: nr, Stride: ldb, Data: b}, work, lwork)
+						k.where = desc(routine, q.name, "query", "m", mm, "n", nn, "nrhs", nr)
+						opt, qok := k.query(routine, effmin, func(w []float64) { impl.Dgels(q.tr, mm, nn, nr, a, lda, b, ldb, w, -1) }, a, b)
+						if !qok {
+							continue
+						}
+						lworks := lworkVariants(docmin, maxi(opt, docmin), full)
+						if opt >= effmin && opt < docmin {
+							lworks = append(lworks, opt)
+						}
+						if (ea != 0 || eb != 0) && !full || nr != c.R {
+							lworks = lworks[:1]
+						}
+						for _, lwork := range lworks {
+							k.where = desc(routine, q.name, "m", mm, "n", nn, "nrhs", nr, "lda", lda, "ldb", ldb, "lwork", lwork, "A*2^", ea, "B*2^", eb, "variant", c.V)
+							a := buildScaled(q.a, mm, nn, lda, 1, ea)
+							b := mkB()
+							work := newWork(lwork)
+							var ok bool
+							ran := k.run(routine, func() {
+								if routine == "Dgels" {
+									ok = impl.Dgels(q.tr, mm, nn, nr, a, lda, b, ldb, work, lwork)
+								} else {
+									ok = lapack64.Gels(q.tr, blas64.General{Rows: mm, Cols: nn, Stride: lda, Data: a},
+										blas64.General{Rows: bg, Cols: nr, Stride: ldb, Data: b}, work, lwork)
+								}
+							})
+							sum.Cases++
+							if mn >= 2 {
+								sum.Nontrivial++
 							}
-						})
-						sum.Cases++
-						if mn >= 2 {
-							sum.Nontrivial++
-						}
-						if mn > 128 || forcedNB > 1 && forcedNB < mn {
-							sum.Count("calls_on_blocked_sizes", 1)
-						}
-						if ea != 0 || eb != 0 {
-							sum.Count("scaled_calls", 1)
-						}
-						if !ran {
-							continue
-						}
-						k.cmpPad(routine, "a", a, lda, mm, nn)
-						k.cmpPad(routine, "b", b, ldb, bg, nr)
-						if mn == 0 || nr == 0 {
-							continue
-						}
-						allZero := true
-						for _, row := range c.A {
-							for _, v := range row {
-								allZero = allZero && v == 0
+							if mn > 128 || forcedNB > 1 && forcedNB < mn {
+								sum.Count("calls_on_blocked_sizes", 1)
 							}
+							if ea != 0 || eb != 0 {
+								sum.Count("scaled_calls", 1)
+							}
+							if !ran {
+								continue
+							}
+							k.cmpPad(routine, "a", a, lda, mm, nn)
+							k.cmpPad(routine, "b", b, ldb, bg, nr)
+							if mn == 0 || nr == 0 {
+								continue
+							}
+							allZero := true
+							for _, row := range c.A {
+								for _, v := range row {
+									allZero = allZero && v == 0
+								}
+							}
+							if allZero {
+								continue // A = 0: the zero solution with ok = true is the LAPACK convention
+							}
+							if ok != c.Ok {
+								k.fail(routine, "ok", "ok = %v, specification says %v (zero planted on the diagonal of R0 at %d)", ok, c.Ok, c.Kz)
+								continue
+							}
+							if !c.Ok {
+								continue
+							}
+							k.tag = ""
+							switch {
+							case ea > 900:
+								k.tag = ":scaled:anrm-gt-bignum" // max|A| above the safe-scaling threshold
+							case (ea != 0 || eb != 0) && q.tr == blas.Trans && mm < nn:
+								k.tag = ":scaled:mltn-trans"
+							case ea != 0 || eb != 0:
+								k.tag = ":scaled"
+							}
+							if !k.cmpScaled(routine, "X", b, ldb, q.x, q.xrows, nr, eb-ea) {
+								sum.Count(desc("wrong solution:", q.name, "A*2^", ea, "B*2^", eb), 1)
+							}
+							k.tag = ""
 						}
-						if allZero {
-							continue // A = 0: the zero solution with ok = true is the LAPACK convention
-						}
-						if ok != c.Ok {
-							k.fail(routine, "ok", "ok = %v, specification says %v (zero planted on the diagonal of R0 at %d)", ok, c.Ok, c.Kz)
-							continue
-						}
-						if !c.Ok {
-							continue
-						}
-						k.tag = ""
-						switch {
-						case ea > 900:
-							k.tag = ":scaled:anrm-gt-bignum" // max|A| above the safe-scaling threshold
-						case (ea != 0 || eb != 0) && q.tr == blas.Trans && mm < nn:
-							k.tag = ":scaled:mltn-trans"
-						case ea != 0 || eb != 0:
-							k.tag = ":scaled"
-						}
-						if !k.cmpScaled(routine, "X", b, ldb, q.x, q.xrows, nr, eb-ea) {
-							sum.Count(desc("wrong solution:", q.name, "A*2^", ea, "B*2^", eb), 1)
-						}
-						k.tag = ""
 					}
 				}
 			}
